@@ -725,9 +725,11 @@ impl<'a> Parser<'a> {
             Token::Ident("false" | "False") => Ok(const_val!(false)),
             Token::Ident("none" | "None") => Ok(const_val!(())),
             Token::Ident(name) => Ok(ast::Expr::Var(Spanned::new(ast::Var { id: name }, span))),
+            // (this peeks at the next token without taking a pending lexer
+            // error out of the stream: `current()` hands that out only once)
             Token::Str(val)
                 if !matches!(
-                    self.stream.current(),
+                    self.stream.current,
                     Ok(Some((Token::Str(_), _) | (Token::String(_), _)))
                 ) =>
             {
